@@ -1,7 +1,7 @@
 """C02 -- JER/XER round-trip and well-formedness (structural clauses; DESIGN.md section 4 C02)."""
 import ast
 
-from ..model import AnalysisError, Model, walk_no_nested, norm_stmt, names_in
+from ..model import AnalysisError, Model, walk_no_nested, norm_stmt, names_in, resolved_constants, unparse_x, expand_consts
 from .. import flow, siblings, dispatch, sem, deleg
 
 EXPLANATION = (
@@ -70,6 +70,14 @@ def check(ctx):
             if 'encode' in own or 'decode' in own:
                 n1 += 1
                 ok = ('decode' in own) or ('encode' not in own)      # an override of encode needs its mirror image
+                if not ok:
+                    # ... unless the inherited decode is a template the class parametrises: it reads class-level attributes (self.FORMAT, self.FACTORY)
+                    # that this class defines in its own body
+                    inh = c.find_method('decode')
+                    if inh is not None:
+                        reads = {n_.attr for n_ in walk_no_nested(inh[1]) if isinstance(n_, ast.Attribute) and isinstance(n_.value, ast.Name) and n_.value.id == 'self'}
+                        if reads & set(c.attrs):
+                            ok = True
                 ctx.instance('C02.R1', '%s defines encode and decode' % c.qname, 'paired' if ok else 'VIOLATION', node=c.node, file=rel)
                 if not ok:
                     ctx.violation('C02.R1', rel, c.node, '%s::%s' % (rel, c.name), 'class %s defines %s but not its partner: the override and the inherited partner no longer mirror each other'
@@ -143,12 +151,12 @@ def check(ctx):
         return seen
     NAMES = ('true', 'false', 'TRUE', 'FALSE', 'True', 'False')
     for f_ in with_helpers(('encode', 'encode_of')):
-        for n in walk_no_nested(f_):
-            if isinstance(n, ast.Constant) and isinstance(n.value, str) and n.value in NAMES:
+        for n in resolved_constants(f_):
+            if isinstance(n.value, str) and n.value in NAMES:
                 written.add(n.value)
     for f_ in with_helpers(('decode', 'decode_of')):
-        for n in walk_no_nested(f_):
-            if isinstance(n, ast.Constant) and isinstance(n.value, str) and n.value in NAMES:
+        for n in resolved_constants(f_):
+            if isinstance(n.value, str) and n.value in NAMES:
                 tested.add(n.value)
     n2 += 1
     ok = written == {'true', 'false'} and tested <= written and 'true' in tested
@@ -159,9 +167,20 @@ def check(ctx):
     jr = model.cls(JER, 'Real')
     enc, dec = jr.methods['encode'], jr.methods['decode']
     table = None
-    for n in walk_no_nested(dec):
-        if isinstance(n, ast.Dict):
-            table = {k.value: ast.unparse(v) for k, v in zip(n.keys, n.values) if isinstance(k, ast.Constant)}
+    dicts = [n for n in walk_no_nested(dec) if isinstance(n, ast.Dict)]
+    for n in walk_no_nested(dec):                       # ... or a class-level / module-level table the decoder indexes
+        if isinstance(n, ast.Subscript) or (isinstance(n, ast.Call) and isinstance(n.func, ast.Attribute) and n.func.attr == 'get'):
+            base = n.value if isinstance(n, ast.Subscript) else n.func.value
+            tv = None
+            if isinstance(base, ast.Attribute) and isinstance(base.value, ast.Name) and base.value.id in ('self', 'cls', jr.name):
+                tv = next((k.attrs[base.attr] for k in jr.mro() if base.attr in k.attrs), None)
+            elif isinstance(base, ast.Name):
+                r_ = jr.mod.resolve_name(base.id)
+                tv = r_[1] if isinstance(r_, tuple) and r_[0] == 'const' else None
+            if isinstance(tv, ast.Dict):
+                dicts.append(tv)
+    for n in dicts:
+        table = {k.value: unparse_x(v, dec) for k, v in zip(n.keys, n.values) if isinstance(k, ast.Constant)}
     if table is None:
         raise AnalysisError('jer.Real.decode: special value table not found')
     dparam = flow.param_names(enc)[1]
@@ -184,9 +203,9 @@ def check(ctx):
             if isinstance(e, ast.Compare) and len(e.ops) == 1 and isinstance(e.ops[0], ast.Eq):
                 l, r = e.left, e.comparators[0]
                 if isinstance(l, ast.Name) and l.id == dparam:
-                    want = ast.unparse(r)
+                    want = unparse_x(r, enc)
                 elif isinstance(r, ast.Name) and r.id == dparam:
-                    want = ast.unparse(l)
+                    want = unparse_x(l, enc)
             elif isinstance(e, ast.Call) and ast.unparse(e.func) in ('math.isnan', 'isnan') and e.args and ast.unparse(e.args[0]) == dparam:
                 want = "float('nan')"
             break
@@ -205,14 +224,23 @@ def check(ctx):
     from .. import defaults
     SPECIALS = ("float('inf')", "float('-inf')", 'isnan(')
 
+    cur_mod = [None]
+
+    def ctext(c):
+        """text of a path condition with module constants (PLUS_INFINITY = float('inf')) written out"""
+        if len(c) > 4 and isinstance(c[4], ast.AST) and cur_mod[0] is not None:
+            return ast.unparse(expand_consts(c[4], cur_mod[0]))
+        return c[0]
+
     def excluded(conds):
         """the three special values have been tested and excluded by these conditions"""
-        return all(any(sp in c[0] and not c[1] for c in conds) for sp in SPECIALS)
+        return all(any(sp in ctext(c) and not c[1] for c in conds) for sp in SPECIALS)
 
     def is_template_format(call):
         return isinstance(call, ast.Call) and isinstance(call.func, ast.Attribute) and call.func.attr == 'format' and isinstance(call.func.value, ast.Constant)
     for rel in (JER, XER):
         c = model.cls(rel, 'Real')
+        cur_mod[0] = c.mod
         f = c.find_method('encode')[1]
         fam = [g_ for g_ in flow.local_reach(model, f, limit=3) if g_._mod.rel == rel]
         short = model.mod(rel).short
@@ -295,7 +323,7 @@ def check(ctx):
                     continue
                 n_proc += 1
                 if not excluded(at) and not context_ok(g_):
-                    first_bad = first_bad or (g_, [sp for sp in SPECIALS if not any(sp in c_[0] and not c_[1] for c_ in at)])
+                    first_bad = first_bad or (g_, [sp for sp in SPECIALS if not any(sp in ctext(c_) and not c_[1] for c_ in at)])
         verdict = 'VIOLATION' if first_bad else ('undecided' if undecided_c else ('ok' if n_proc else 'n/a'))
         ctx.instance('C02.R3', '%s.Real.encode excludes inf / -inf / nan before any loop or formatting (%d processing paths)' % (short, n_proc), verdict,
                      'too many paths in %s' % undecided_c[0].name if undecided_c else ('' if n_proc else 'the float is not scaled or formatted with a template'),
@@ -462,7 +490,7 @@ def check(ctx):
 
     # ---- R7: delegation mirror (sa/deleg.py)
     ctx.rule('C02.R7', 'per configuration, decode / decode_of hand the element to the mirrored methods of the children that encode / encode_of handed the value to')
-    n7 = 0
+    n7 = n7d = 0
     for rel in (JER, XER):
         for c in model.mod(rel).classes.values():
             if c.name in ('Compiler',):
@@ -478,14 +506,16 @@ def check(ctx):
                     ctx.instance('C02.R7', '%s.%s/%s' % (c.qname, en, dn), 'undecided', 'too many paths or configuration atoms', nontrivial=False, node=dr[1], file=rel)
                     continue
                 n7 += 1
-                ctx.instance('C02.R7', '%s.%s/%s' % (c.qname, en, dn), 'mirrored' if not mm else 'VIOLATION', nontrivial=any(d for _k, d in (deleg.deleg_paths(c, dr[1]) or [])), node=dr[1], file=rel)
+                nt = any(d for _k, d in (deleg.deleg_paths(c, dr[1]) or []))
+                n7d += 1 if nt else 0
+                ctx.instance('C02.R7', '%s.%s/%s' % (c.qname, en, dn), 'mirrored' if not mm else 'VIOLATION', nontrivial=nt, node=dr[1], file=rel)
                 for asg, extra, es in mm:
                     ctx.violation('C02.R7', rel, dr[1], Model.qual(dr[1]),
                                   'under the configuration %s the decoder can hand the element to %s while the encoder hands the value to %s only: the same encoder output is read '
                                   'by a different child protocol depending on the document (element name, key), so the codec cannot always decode what it wrote'
                                   % ({k: v for k, v in asg.items()} or '{}', [sorted(x) for x in extra], [sorted(x) for x in es]), stmt='%s delegations differ from %s' % (dn, en))
-    if n7 < 40:
-        raise AnalysisError('C02.R7 examined only %d method pairs' % n7)
+    if n7 < 20 or n7d < 8:
+        raise AnalysisError('C02.R7 examined only %d method pairs (%d that delegate to children)' % (n7, n7d))
 
 
 def _abstract(f):
